@@ -388,8 +388,72 @@ func runC07Race(tier string, seed uint64) {
 	c07VersionStress(rng, 8, 30)
 }
 
+// c07RequestIDs: the server's own per-request bookkeeping under concurrent load. Every response carries the
+// request id the server counted it under; simultaneous requests of any kind get distinct ids and the ids handed
+// out are exactly as many as the requests served (no sequential order gives two requests one id)
+func c07RequestIDs(kind string, clients, per int) {
+	s := newSess("c07", kind, SessOpts{})
+	emit("c07", "NOMODEL")
+	b := singleBucketName
+	if !isSingle(kind) {
+		do(s.h, Req{Method: "PUT", Path: "/" + b})
+	}
+	do(s.h, Req{Method: "PUT", Path: "/" + b + "/idk", Body: []byte("x")})
+	ids := make([][]string, clients)
+	var wg sync.WaitGroup
+	start := make(chan struct{})
+	for c := 0; c < clients; c++ {
+		wg.Add(1)
+		go func(c int) {
+			defer wg.Done()
+			<-start
+			for i := 0; i < per; i++ {
+				var r Resp
+				switch (c + i) % 3 {
+				case 0:
+					r = do(s.h, Req{Method: "HEAD", Path: "/" + b + "/idk"})
+				case 1:
+					r = do(s.h, Req{Method: "GET", Path: "/" + b + "/nosuchkey"})
+				default:
+					r = do(s.h, Req{Method: "HEAD", Path: "/" + b})
+				}
+				ids[c] = append(ids[c], r.Header.Get("x-amz-request-id"))
+			}
+		}(c)
+	}
+	close(start)
+	doneCh := make(chan struct{})
+	go func() { wg.Wait(); close(doneCh) }()
+	if !waitOr(doneCh, 60*time.Second) {
+		emit("c07", "HANG", hs("simultaneous cheap requests did not complete (deadlock?)"))
+		return
+	}
+	seen := map[string]int{}
+	n, dup, empty := 0, 0, 0
+	for _, l := range ids {
+		for _, id := range l {
+			n++
+			if id == "" {
+				empty++
+			} else if seen[id]++; seen[id] > 1 {
+				dup++
+			}
+		}
+	}
+	msg := fmt.Sprintf("%s: %d clients x %d simultaneous requests: %d responses, %d distinct request ids, %d responses repeat the id of another request, %d carry none", kind, clients, per, n, len(seen), dup, empty)
+	if dup == 0 && empty == 0 {
+		emit("c07", "GOOD", hs(msg))
+	} else {
+		emit("c07", "BAD", hs("S:lost-update-in-the-request-counter "+msg))
+	}
+	nontrivial(kind + "|request-ids")
+	s.end()
+}
+
 func runC07(tier string, seed uint64) {
 	rng := NewRng(seed)
+	c07RequestIDs("mem", 16, 2500)
+	c07RequestIDs("bolt", 16, 800)
 	rounds, reps := 25, 2
 	if tier == "thorough" {
 		rounds, reps = 60, 12
